@@ -481,6 +481,54 @@ def _tokenizer_calls(corpus: Corpus, fi: FunctionInfo) -> list[ast.Call]:
     return out
 
 
+def _guarded_by_absence(fi: FunctionInfo, st: ast.stmt, tgt: ast.Subscript) -> bool:
+    """Is the store ``M[k] = ...`` only executed when ``k not in M``?"""
+    mname, key = unparse(tgt.value), unparse(tgt.slice)
+    for t, pol in get_cfg(fi).guards(st):
+        if isinstance(t, ast.Compare) and len(t.ops) == 1 and unparse(t.left) == key and unparse(t.comparators[0]) == mname:
+            if (isinstance(t.ops[0], ast.NotIn) and pol) or (isinstance(t.ops[0], ast.In) and not pol):
+                return True
+    return False
+
+
+def _post_merge_stores(fi: FunctionInfo, merge_st: ast.stmt, merged: set[str], add_param: str):
+    """Stores into the merged dict behind the merge whose value may stem from the additional options and that
+    can replace what the dict holds under another key: [(stmt, verdict, text)]."""
+    cfg = get_cfg(fi)
+    behind = cfg.reachable_from(merge_st)
+    out = []
+    for st in fi.local_nodes():
+        if st is merge_st or not isinstance(st, ast.Assign) or len(st.targets) != 1:
+            continue
+        tgt = st.targets[0]
+        if not (isinstance(tgt, ast.Subscript) and isinstance(tgt.value, ast.Name) and tgt.value.id in merged):
+            continue
+        if cfg.stmt_of(st) not in behind:
+            continue
+        a_t = _taint(fi, {add_param}, st)
+        if not (names_in(st.value) & a_t):
+            out.append((st, "ok", "stored value cannot stem from the additional options"))
+            continue
+        key = unparse(tgt.slice)
+        # same-key transformation: every read of the merged dict in the value is M[key] / M.get(key) / M.pop(key)
+        same = True
+        for n in ast.walk(st.value):
+            if isinstance(n, ast.Name) and n.id in a_t:
+                p_ = parent(n)
+                if n.id in merged and isinstance(p_, ast.Subscript) and p_.value is n and unparse(p_.slice) == key:
+                    continue
+                if n.id in merged and isinstance(p_, ast.Attribute) and p_.attr in ("get", "pop") and isinstance(parent(p_), ast.Call) and parent(p_).args and unparse(parent(p_).args[0]) == key:
+                    continue
+                same = False
+        if same:
+            out.append((st, "ok", "transforms the value already stored under the same key"))
+        elif _guarded_by_absence(fi, st, tgt):
+            out.append((st, "ok", "only stored when the key is absent (an option written in the block is kept)"))
+        else:
+            out.append((st, "bad", f"behind the priority merge the provenance of a value is lost: this store puts a value that may come from the additional options under `{key}` without testing `{key} not in {tgt.value.id}`, replacing an option of that name written in the block"))
+    return out
+
+
 def _merge_verdict(corpus: Corpus, fi: FunctionInfo, add_param: str):
     """[(stmt, verdict, text)] for every statement that combines the additional-options operand with the block operand."""
     toks = _tokenizer_calls(corpus, fi)
@@ -528,6 +576,12 @@ def _merge_verdict(corpus: Corpus, fi: FunctionInfo, add_param: str):
             order = [role(v.func.value), role(v.args[0])]
         elif isinstance(v, ast.Call) and dotted(v.func) == "dict" and len(v.args) == 1 and len(v.keywords) == 1 and v.keywords[0].arg is None:
             order = [role(v.args[0]), role(v.keywords[0].value)]
+        elif isinstance(st, ast.Assign) and len(st.targets) == 1 and isinstance(st.targets[0], ast.Subscript) and isinstance(st.targets[0].value, ast.Name):
+            # M[k] = v : v overrides what M held under k, unless guarded by `k not in M`
+            tgt = st.targets[0]
+            order = [role(tgt.value), role(st.value)]
+            if _guarded_by_absence(fi, st, tgt):
+                order.reverse()
         if order is None or "?" in order or "A" not in order or "B" not in order:
             out.append((st, "unknown", f"merge idiom not understood: {short(st, 70)}"))
             continue
@@ -620,6 +674,14 @@ def r2_priority(corpus: Corpus, rep: Report, tier: str):
                 if isinstance(st, ast.Expr):
                     recv = getattr(getattr(st.value, "func", None), "value", None)
                     tg = [recv.id] if isinstance(recv, ast.Name) else []
+                if isinstance(st, ast.Assign):
+                    tg += [t_.value.id for t_ in st.targets if isinstance(t_, ast.Subscript) and isinstance(t_.value, ast.Name)]
+                for st2, v2, text2 in _post_merge_stores(t, st, set(tg), p):
+                    k3 = f"{t.fq}|store into the merged options behind the merge keeps block options|{short(st2, 70)}"
+                    if v2 == "ok":
+                        rep.ok("C08.R2", k3, t.module.site(st2), text2)
+                    else:
+                        rep.violation("C08.R2", k3, t.module.site(st2), f"`{short(st2, 70)}`: {text2}")
                 if t.fq == vm.f.fq:
                     k2 = f"{t.fq}|the validation loop iterates the merged options"
                     if vm.merged_name in _taint(t, set(tg), None):
@@ -990,6 +1052,10 @@ def r3_argument_counts(corpus: Corpus, rep: Report, tier: str):
 # R4 one validation path for both option styles
 
 
+def assigns_name(f: FunctionInfo, name: str):
+    return lambda n: isinstance(n, ast.stmt) and any(s_ is n for s_, _ in simple_defs(f, name))
+
+
 def _is_call_on(n: ast.AST, recv: str, attrs: tuple[str, ...]) -> bool:
     return isinstance(n, ast.Call) and isinstance(n.func, ast.Attribute) and n.func.attr in attrs and isinstance(n.func.value, ast.Name) and n.func.value.id == recv
 
@@ -1027,7 +1093,15 @@ def r4_one_validation_path(corpus: Corpus, rep: Report, tier: str):
             for c in ast.walk(n.test):
                 if isinstance(c, ast.Call) and isinstance(c.func, ast.Attribute) and c.func.attr == "startswith" and len(c.args) == 1 and isinstance(c.args[0], ast.Constant) and c.args[0].value in ("---", ":"):
                     roots = [x for x in ast.walk(c.func.value) if isinstance(x, ast.Name)]
-                    if roots and all(x.id in f.params for x in roots) and not cfg.loops.get(n):
+
+                    def from_params(nm: str, depth: int = 0) -> bool:
+                        # a parameter, or a local bound once to an expression over parameters (hoisted `content.lstrip()`)
+                        if nm in f.params:
+                            return True
+                        v = single_value(f, nm) if depth < 3 else None
+                        return v is not None and bool(names_in(v)) and all(from_params(x, depth + 1) for x in names_in(v))
+
+                    if roots and all(from_params(x.id) for x in roots) and not cfg.loops.get(n):
                         if c.args[0].value in styles and styles[c.args[0].value] is not n:
                             raise Unsupported(f"several branches test startswith({c.args[0].value!r})")
                         styles[c.args[0].value] = n
@@ -1044,6 +1118,30 @@ def r4_one_validation_path(corpus: Corpus, rep: Report, tier: str):
         return
     V = tok.args[0].id
     tok_stmt = cfg.stmt_of(tok)
+    # the style branches are mutually exclusive: at most one of them consumes (part of) the content
+    for s1, s2 in (("---", ":"), (":", "---")):
+        i1, i2 = styles[s1], styles[s2]
+        k = f"{f.fq}|style {s2!r} branch cannot run after the {s1!r} branch"
+        if ("T", i2) not in cfg.reachable_from(("T", i1)):
+            rep.ok("C08.R4", k, m.site(i2))
+            continue
+        # reachable in the graph: only harmless when the second test requires that no block was found yet
+        needs_unset = False
+        for t_, pol in split_facts(i2.test, True):
+            if pol and isinstance(t_, ast.Compare) and len(t_.ops) == 1 and isinstance(t_.ops[0], ast.Is) and isinstance(t_.left, ast.Name) and t_.left.id == V and isinstance(t_.comparators[0], ast.Constant) and t_.comparators[0].value is None:
+                needs_unset = True
+            if not pol and isinstance(t_, ast.Name) and t_.id == V:
+                needs_unset = True
+        if needs_unset and not cfg.paths_avoiding(("T", i1), i2, assigns_name(f, V)):
+            rep.ok("C08.R4", k, m.site(i2), f"guarded by `{V}` being unset, which the {s1!r} branch always sets")
+        else:
+            rep.violation(
+                "C08.R4",
+                k,
+                m.site(i2),
+                f"the {s2!r}-style test is evaluated again after the {s1!r} branch has consumed its block (the two tests are not exclusive): when the remaining body starts like a {s2!r} block "
+                f"the second branch overwrites `{V}`, so every option of the {s1!r} block is silently dropped and body lines are swallowed as options",
+            )
     # the remaining-content field: the returned local that the style branches re-assign
     so = StrOrigin(corpus)
     cc = {
@@ -1820,6 +1918,23 @@ RULES = [r1_failure_mode, r2_priority, r3_argument_counts, r4_one_validation_pat
 # mutants of the current tree
 
 
+def _byte_offset(src: str, node: ast.AST) -> int:
+    lines = src.splitlines(keepends=True)
+    return sum(len(l.encode("utf8")) for l in lines[: node.lineno - 1]) + node.col_offset
+
+
+def segment_at(src: str, node: ast.AST, n: int) -> str:
+    o = _byte_offset(src, node)
+    return src.encode("utf8")[o : o + n].decode("utf8")
+
+
+def splice_at(src: str, node: ast.AST, n: int, new: str) -> str:
+    """Replace the first ``n`` bytes of ``node``'s source (e.g. the keyword ``elif``) by ``new``."""
+    o = _byte_offset(src, node)
+    b = src.encode("utf8")
+    return (b[:o] + new.encode("utf8") + b[o + n :]).decode("utf8")
+
+
 def _rename_local(f: FunctionInfo, old: str, new: str) -> str:
     """Source of the module with local ``old`` of function ``f`` renamed (behaviour-preserving)."""
     src = f.module.src
@@ -1987,6 +2102,32 @@ def mutants(corpus: Corpus):
         splice(src, z[0].value, "len(content.splitlines()) - len('\\n'.join(body_lines).splitlines())") if z else None,
         "content_offset = len(content.splitlines()) - len('\\n'.join(body_lines).splitlines())",
     )
+    # ---- class: behind the priority merge a default re-enters under another key (R2)
+    if mg is not None:
+        ind = indent_of(fo, mg)
+        seg = ast.get_source_segment(src, mg)
+        mname = unparse(mg.targets[0])
+        addn = next((unparse(v) for v in mg.value.values if unparse(v) != mname), "additional_options")
+        add("c08-id-renamed-to-name-after-merge", "C08.R2", splice(src, mg, seg + f'\n{ind}if "id" in {mname}:\n{ind}    {mname}["name"] = {mname}.pop("id")'), "behind the merge keeps block options")
+        add("c08-default-copied-under-other-key-after-merge", "C08.R2", splice(src, mg, seg + f'\n{ind}if "id" in {addn}:\n{ind}    {mname}["name"] = {addn}["id"]'), "behind the merge keeps block options")
+        add("c08-defaults-reapplied-by-loop-after-merge", "C08.R2", splice(src, mg, seg + f"\n{ind}for _k, _v in {addn}.items():\n{ind}    {mname}[_k] = _v"), "merge of additional options")
+    else:
+        out.append(("c08-id-renamed-to-name-after-merge", "merge not found"))
+    # ---- class: the option-style tests are no longer exclusive (R4)
+    sty2 = find_node(fo, lambda n: isinstance(n, ast.If) and isinstance(parent(n), ast.If) and parent(n).orelse == [n] and any(isinstance(c, ast.Call) and isinstance(c.func, ast.Attribute) and c.func.attr == "startswith" for c in ast.walk(n.test)) and any(isinstance(c, ast.Constant) and c.value == "---" for c in ast.walk(parent(n).test)))
+    if sty2 is not None and segment_at(src, sty2, 4) == "elif":
+        add("c08-style-tests-not-exclusive", "C08.R4", splice_at(src, sty2, 4, "if"), "cannot run after")
+        test_src = ast.get_source_segment(src, sty2.test)
+        recv = next((c.func.value for c in ast.walk(sty2.test) if isinstance(c, ast.Call) and isinstance(c.func, ast.Attribute) and c.func.attr == "startswith"), None)
+        recv_src = ast.get_source_segment(src, recv) if recv is not None else None
+        if recv_src and not isinstance(recv, ast.Name):
+            ind = indent_of(fo, parent(sty2))
+            hoisted = splice(src, sty2.test, test_src.replace(recv_src, "_stripped"))
+            add("c08-style-test-hoisted-behind-first-branch", "C08.R4", splice_at(hoisted, sty2, 4, f"_stripped = {recv_src}\n{ind}if"), "cannot run after")
+        else:
+            out.append(("c08-style-test-hoisted-behind-first-branch", "receiver of the ':' test is already a local"))
+    else:
+        out.append(("c08-style-tests-not-exclusive", "elif of the ':' style not found"))
     # ---- R6 -------------------------------------------------------------------
     rx = find_node(fo, lambda n: isinstance(n, ast.Call) and unparse(n.func) == "re.search" and n.args and isinstance(n.args[0], ast.Constant))
     if rx is not None:
